@@ -118,7 +118,7 @@ def run_shard(shard, rec, tier, seed):
                 case = gen.huge_tick_chart(rng)
                 rec.cls("ticks_around_2^31..10^12")
             else:
-                case = gen.gen_chart(rng, "hostile" if i % 2 else "realistic", n_tracks=rng.choice([1, 2, 3]),
+                case = gen.chart_or_interactions(rng, i, "hostile" if i % 2 else "realistic", rec, n_tracks=rng.choice([1, 2, 3]),
                                      n_groups=rng.choice([1, 2, 5, 30, 120, 400]), pad=i % 3 == 0)
             sel = mcheck.all_present(case, rng) if i % 5 == 3 else None
             if sel is not None:
